@@ -578,7 +578,92 @@ func (s *session) longTTLProbe() {
 			return
 		}
 	}
+	// TTL bookkeeping on overwrite: a SET without expire options clears the TTL
+	// (also with XX), a SET with an expire option installs it. The first SET uses
+	// a 1.5 s TTL; the check only concludes something when the second command was
+	// answered as expected, and the pause below is a lower bound, so a slow
+	// machine can only make the verdict easier, never wrong.
+	do := func(args ...string) (redisx.Reply, bool) {
+		bs := make([][]byte, len(args))
+		for i, a := range args {
+			bs[i] = []byte(a)
+		}
+		r, err := s.conn.Do(bs...)
+		if err != nil {
+			s.fail("ttl-overwrite probe", err)
+			return r, false
+		}
+		return r, true
+	}
+	type ow struct {
+		key, kind, want string // want "" = absent
+		ok              bool
+	}
+	var ows []ow
+	for _, kind := range []string{"plain-set-clears-ttl", "set-xx-clears-ttl", "set-px-installs-ttl", "set-get-like-mset-clears-ttl"} {
+		k := fmt.Sprintf("ttlow-%s:c%d", kind, s.c.Idx)
+		o := ow{key: k, kind: kind}
+		switch kind {
+		case "plain-set-clears-ttl":
+			if _, ok := do("SET", k, "a", "PX", "1500"); !ok {
+				return
+			}
+			r, ok := do("SET", k, "b")
+			if !ok {
+				return
+			}
+			o.want, o.ok = "b", r.Shape() == "simple:OK"
+		case "set-xx-clears-ttl":
+			if _, ok := do("SET", k, "a", "PX", "1500"); !ok {
+				return
+			}
+			r, ok := do("SET", k, "b", "XX")
+			if !ok {
+				return
+			}
+			o.want, o.ok = "b", r.Shape() == "simple:OK" // nil reply: the key had already expired (stalled machine) -> no verdict
+		case "set-px-installs-ttl":
+			if _, ok := do("SET", k, "a"); !ok {
+				return
+			}
+			r, ok := do("SET", k, "b", "PX", "1500")
+			if !ok {
+				return
+			}
+			o.want, o.ok = "", r.Shape() == "simple:OK"
+		case "set-get-like-mset-clears-ttl":
+			if _, ok := do("SET", k, "a", "PX", "1500"); !ok {
+				return
+			}
+			r, ok := do("MSET", k, "b")
+			if !ok {
+				return
+			}
+			o.want, o.ok = "b", r.Shape() == "simple:OK"
+		}
+		ows = append(ows, o)
+	}
 	time.Sleep(2500 * time.Millisecond)
+	for _, o := range ows {
+		if !o.ok {
+			s.c.Count("ttl_overwrite_probes_without_verdict", 1)
+			continue
+		}
+		got, ok := do("GET", o.key)
+		if !ok {
+			return
+		}
+		s.c.Count("evaluations", 1)
+		s.c.Count("ttl_overwrite_probes", 1)
+		want := redisx.Nil()
+		if o.want != "" {
+			want = redisx.Bulk([]byte(o.want))
+		}
+		if !redisx.Equal(want, got) {
+			s.c.Violation(fmt.Sprintf("C29|ttl-on-overwrite|%s|want=%s|got=%s", o.kind, want.Shape(), got.Shape()),
+				fmt.Sprintf("%s: 2.5 s after the overwrite GET returned %s, expected %s (first TTL was 1.5 s)", o.kind, got.String(), want.String()), map[string]any{"key": o.key})
+		}
+	}
 	for i, k := range keys {
 		got, err := s.conn.Do([]byte("GET"), k)
 		if err != nil {
